@@ -9,7 +9,7 @@
 //
 //   - in ONE process: worker processes (this binary, -worker) call the generators' own
 //     packages (gsort/gen, genum/gen, gerror/gen) exactly the way their CLIs' main() does
-//     (flagsfiller over the same argument list, Sanitize*, Parse, Write), several definitions
+//     (flagsfiller over the same argument list, Sanitize*, Parse, Write), two definitions
 //     interleaved in one process, `reps` rounds;
 //   - in SEPARATE processes: the real CLIs built from the tree under test, run the way
 //     go:generate runs them, `reps` times.
@@ -546,15 +546,15 @@ func main() {
 		os.Exit(1)
 	}
 	all := make([][]obs, len(defs))
-	// (1) in one process: batches of three definitions (one per generator) share a worker process
+	// (1) in one process: batches of two definitions (of different generators) share a worker process
 	self, err := os.Executable()
 	must(err)
 	var wg sync.WaitGroup
 	sem := make(chan struct{}, 16)
 	var mu sync.Mutex
 	fail := ""
-	for lo := 0; lo < len(jobs); lo += 3 {
-		hi := min(lo+3, len(jobs))
+	for lo := 0; lo < len(jobs); lo += 2 {
+		hi := min(lo+2, len(jobs))
 		wg.Add(1)
 		go func(lo, hi int) {
 			defer wg.Done()
